@@ -534,6 +534,16 @@ class StartStageHandler(
 
                 for msg in messages_to_push:
                     txn.push_message(msg)
+
+                # Recorded inside the transaction (same commit as the start
+                # messages): a stage.completed written by another worker can
+                # never precede this stage.started in the log.
+                if self.event_recorder:
+                    self.set_event_context(stage.execution.id if stage.execution else "")
+                    self.event_recorder.record_stage_started(
+                        stage,
+                        source_handler="StartStageHandler",
+                    )
         except ConcurrencyError:
             # This shouldn't happen since we already claimed the stage,
             # but handle it gracefully just in case.
@@ -545,10 +555,3 @@ class StartStageHandler(
 
         logger.info("Started stage %s (%s)", stage.name, stage.id)
 
-        # Record event if event recorder is configured
-        if self.event_recorder:
-            self.set_event_context(stage.execution.id if stage.execution else "")
-            self.event_recorder.record_stage_started(
-                stage,
-                source_handler="StartStageHandler",
-            )
